@@ -1796,3 +1796,127 @@ twin('C09', 'check-sanity-guard-is-none', FSPY, 'FileStorage._check_sanity',
 twin('C01', 'scan-status-not-equal-form', FSPY, 'read_index',
      "if pos + (tl + 8) > file_size or status == 'c':",
      "if not (pos + (tl + 8) <= file_size and status != 'c'):")
+
+# ------------------------------------------------- rules added in seeded round 2
+breaker('C07', 'fs-data-find-first-match-break', 'C07.R8', FSPY,
+        'FileStorage._data_find',
+        '''            if h.oid == oid:
+                data_hdr = h
+                data_pos = pos
+            pos += h.recordlen()''',
+        '''            if h.oid == oid:
+                data_hdr = h
+                data_pos = pos
+                break
+            pos += h.recordlen()''')
+twin('C07', 'copier-data-find-tuple-assign', PACKPY, 'PackCopier._data_find',
+     '''            if h.oid == oid:
+                data_hdr = h
+                data_pos = pos
+            pos += h.recordlen()''',
+     '''            if h.oid == oid:
+                data_hdr, data_pos = h, pos
+            pos += h.recordlen()''')
+twin('C10', 'prfactory-key-inline', CRPY,
+     'PersistentReferenceFactory.persistent_load',
+     '''        key = tuple(ref)
+        # even after eliminating list/tuple distinction
+        r = self.data.get(key, None)
+        if r is None:
+            r = PersistentReference(ref)
+            self.data[key] = r''',
+     '''        r = self.data.get(tuple(ref))
+        if r is None:
+            r = self.data[tuple(ref)] = PersistentReference(ref)''')
+breaker('C10', 'prfactory-key-oid-only', 'C10.R6', CRPY,
+        'PersistentReferenceFactory.persistent_load',
+        '''        key = tuple(ref)
+        # even after eliminating list/tuple distinction
+        r = self.data.get(key, None)
+        if r is None:
+            r = PersistentReference(ref)
+            self.data[key] = r''',
+        '''        new = PersistentReference(ref)
+        r = self.data.get(new.oid, None)
+        if r is None:
+            r = new
+            self.data[new.oid] = r''')
+breaker('C14', 'dump-truncate-before-rewind', 'C14.R6', SERPY,
+        'ObjectWriter._dump',
+        '''        self._file.seek(0)
+        self._p.clear_memo()
+        self._p.dump(classmeta)
+        self._p.dump(state)
+        self._file.truncate()
+        return self._file.getvalue()''',
+        '''        self._file.truncate()
+        self._file.seek(0)
+        self._p.clear_memo()
+        self._p.dump(classmeta)
+        self._p.dump(state)
+        return self._file.getvalue()''')
+twin('C14', 'dump-truncate-after-rewind', SERPY, 'ObjectWriter._dump',
+     '''        self._file.seek(0)
+        self._p.clear_memo()
+        self._p.dump(classmeta)
+        self._p.dump(state)
+        self._file.truncate()
+        return self._file.getvalue()''',
+     '''        self._file.seek(0)
+        self._file.truncate()
+        self._p.clear_memo()
+        self._p.dump(classmeta)
+        self._p.dump(state)
+        return self._file.getvalue()''')
+twin('C14', 'newargs-getattr-none-form', SERPY, 'ObjectWriter.persistent_id',
+     "        if hasattr(klass, '__getnewargs__'):",
+     "        if getattr(klass, '__getnewargs__', None) is not None:")
+breaker('C14', 'newargs-vars-membership', 'C14.R7', SERPY,
+        'ObjectWriter.persistent_id',
+        "        if hasattr(klass, '__getnewargs__'):",
+        "        if '__getnewargs__' in vars(klass):")
+breaker('C17', 'iter-backptr-unvalidated-header', 'C17.R6', FSPY,
+        'TransactionRecordIterator.__next__',
+        'prev_txn = self.getTxnFromData(h.oid, h.back)',
+        'prev_txn = self._read_data_header(h.back).tid')
+twin('C17', 'recover-len-test-negated-form', RECPY, 'read_txn_header',
+     'if tl < (23 + ul + dl + el):', 'if not tl >= (23 + ul + dl + el):')
+breaker('C17', 'fileiterator-empty-txn-refused', 'C17.R7', FSPY,
+        'FileIterator.__next__',
+        'if h.tlen < h.headerlen():', 'if h.tlen <= h.headerlen():')
+breaker('C17', 'checktxn-empty-txn-refused', 'C17.R7', FMTPY,
+        'FileStorageFormatter.checkTxn',
+        'if th.tlen < th.headerlen():', 'if not th.tlen > th.headerlen():')
+twin('C17', 'copy-blob-test-in-local', BLOBPY, 'copyTransactionsFromTo',
+     '''            if is_blob_record(record.data):
+                try:''',
+     '''            isblob = is_blob_record(record.data)
+            if isblob:
+                try:''')
+twin('C17', 'copy-blob-data-and-test', BLOBPY, 'copyTransactionsFromTo',
+     '''            if is_blob_record(record.data):
+                try:''',
+     '''            if record.data and is_blob_record(record.data):
+                try:''')
+breaker('C17', 'copy-blob-skip-packed', 'C17.R8', BLOBPY,
+        'copyTransactionsFromTo',
+        '''            if is_blob_record(record.data):
+                try:''',
+        '''            if trans.status != 'p' and is_blob_record(record.data):
+                try:''')
+twin('C18', 'nochange-sum-operands-swapped', RZPY, 'do_backup',
+     'if srcsz == reposz and srcsum == reposum:',
+     'if reposum == srcsum and reposz == srcsz:')
+breaker('C18', 'nochange-size-only', 'C18.R6', RZPY, 'do_backup',
+        'if srcsz == reposz and srcsum == reposum:',
+        'if srcsz == reposz:')
+breaker('C18', 'copyfile-no-length-check', 'C18.R2', RZPY, 'copyfile',
+        '''    ndone = dofile(func, ifp, n)
+    assert ndone == n
+''', '''    ndone = dofile(func, ifp, n)
+''')
+twin('C18', 'copyfile-length-check-raise', RZPY, 'copyfile',
+     '''    assert ndone == n
+''', '''    if ndone != n:
+        raise OSError('short read from %s' % options.file)
+''')
